@@ -20,10 +20,12 @@ class Matter:
         self.number_density = number_density
         self.mass_density = mass_density
         self.volume = volume
+        # the density given by the user stays authoritative when the composition changes
+        self.number_density_given = mass_density is None and number_density is not None
 
     def _norm(self):
       # setup densities of the composite
-        if self.mass_density:
+        if self.mass_density and not self.number_density_given:
             self.mass_density.to(Units.MASS_DENSITY)
             self.number_density = (self.mass_density/self.composite_mass).to(Units.NUMBER_DENSITY)
         elif self.number_density: # !! number density of a composite, not sum of all its components
